@@ -6,18 +6,29 @@
 
 struct S0b { u32 x; i16 y; NOP_STRUCTURE(S0b, x, y); };                    // member-wise fungible with S0
 template <> struct Meta<S0b> : MetaStruct<S0b, F<S0b, u32, &S0b::x>, F<S0b, i16, &S0b::y>> {};
+#ifndef VRT_HAVE_W8
+#define VRT_HAVE_W8
+struct W8 { u8 v; NOP_VALUE(W8, v); };
+template <> struct Meta<W8> : MetaValue<W8, F<W8, u8, &W8::v>> {};
+#endif
 
 // "the same value" across fungible entry types
+static inline bool same_val(const u8& a, const u8& b) { return a == b; }
+static inline bool same_val(const u8& a, const W8& b) { return a == b.v; }
+static inline bool same_val(const W8& a, const u8& b) { return a.v == b; }
+static inline bool same_val(const W8& a, const W8& b) { return a.v == b.v; }
+static inline bool same_val(const u16& a, const u16& b) { return a == b; }
 static inline bool same_val(const u32& a, const u32& b) { return a == b; }
-static inline bool same_val(const u32& a, const W32& b) { return a == b.v; }
-static inline bool same_val(const W32& a, const u32& b) { return a.v == b; }
-static inline bool same_val(const W32& a, const W32& b) { return a.v == b.v; }
+static inline bool same_val(const std::pair<u8, u8>& a, const std::pair<u8, u8>& b) { return a == b; }
+static inline bool same_val(const std::pair<u8, u8>& a, const std::tuple<u8, u8>& b) { return a.first == std::get<0>(b) && a.second == std::get<1>(b); }
+static inline bool same_val(const std::tuple<u8, u8>& a, const std::pair<u8, u8>& b) { return same_val(b, a); }
+static inline bool same_val(const std::tuple<u8, u8>& a, const std::tuple<u8, u8>& b) { return a == b; }
 static inline bool same_val(const S0& a, const S0& b) { return a.a == b.a && a.b == b.b; }
 static inline bool same_val(const S0& a, const S0b& b) { return a.a == b.x && a.b == b.y; }
 static inline bool same_val(const S0b& a, const S0& b) { return a.x == b.a && a.y == b.b; }
 static inline bool same_val(const S0b& a, const S0b& b) { return a.x == b.x && a.y == b.y; }
 static inline bool same_val(const std::array<u8, 3>& a, const std::array<u8, 3>& b) { return a == b; }
-static inline bool same_val(const nop::Optional<u16>& a, const nop::Optional<u16>& b) { return a.empty() == b.empty() && (a.empty() || a.get() == b.get()); }
+static inline bool same_val(const nop::Optional<u8>& a, const nop::Optional<u8>& b) { return a.empty() == b.empty() && (a.empty() || a.get() == b.get()); }
 template <typename A, typename B> static bool same_entry(const A& a, const B& b) {
   if (a.empty() != b.empty()) return false;
   return a.empty() || same_val(a.get(), b.get());
@@ -25,7 +36,7 @@ template <typename A, typename B> static bool same_entry(const A& a, const B& b)
 
 // write w and a sentinel, read as r, read the sentinel back: the reader ends positioned exactly after the table
 #define EVO_ROUNDTRIP(w, r, sent)                                              \
-  std::uint8_t buf[40] = {};                                                   \
+  std::uint8_t buf[32] = {};                                                   \
   Wr<PBW> wr(buf, sizeof buf);                                                 \
   { auto s1 = wr.write(w); vassert(!!s1, 1); }                                 \
   const std::size_t n1 = wr.produced();                                        \
